@@ -68,11 +68,18 @@ CHECKS.update({
                 note='qubit[] entries are in the thorough tier only and may be inconclusive (900 s); CLI shot loop, @shots precedence, probabilities, echo policy (cli.cpp) and tracked object fields are outside.',
                 ref='DESIGN.md §2 C17', tech=TECH_SAT),
 })
+CHECKS.update({
+    'C10': dict(text='Real SemanticAnalyser::analyse on two-function programs in both declaration orders (main calling gg with 0..2 arguments, matching or one too many): the verdict is a function of the content only; node positions symbolic.',
+                note='programs enumerated; class order (derived before base) in analyser/buildClassTable, module merge order, >2 declarations and printed output are outside. Found and fixed: forward calls checked against an empty signature (6269c7c).',
+                ref='DESIGN.md §2 C10', tech=TECH_SAT),
+    'C16': dict(text='Real SemanticAnalyser::analyse on hand-built programs, each rule instance in each enumerated position with its violation-free twin: use before declaration (initialiser, assignment, echo, condition), '
+                     'writes to a final local (AssignmentStatement, PostfixExpression, AssignmentExpression), primitive initialiser compatibility (7x7 types, int->long widening only).',
+                note='three rule kernels of the long list; visibility, void results, static/abstract instantiation, this/super in static context, annotations, null, final fields, classes/arrays/generics are outside; node positions symbolic, programs enumerated.',
+                ref='DESIGN.md §2 C16', tech=TECH_SAT),
+})
 NA = {
     'C08': 'needs buildClassTable/instantiateGeneric on whole class hierarchies plus analyser overload resolution; parse() of `class A { }` and exec of a single statement do not get through CBMC (300-900 s, 30 GB): out of reach at the depth the property quantifies over',
-    'C10': 'needs the semantic analyser TU on two-declaration programs and buildClassTable; not encodable within the measured limits (see DESIGN.md §3)',
     'C11': 'needs exec/eval of call and new expressions with collections triggered at symbolic statement boundaries; exec of a single statement gives no verdict (900 s, 30 GB); the data-race clause needs a thread model CBMC does not get from this translation',
-    'C16': 'needs the semantic analyser TU (68k IR lines, visitor double dispatch over whole programs); not encodable within the measured limits',
     'C18': 'needs two complete execute() runs of a parsed program inside one query; a single statement already exceeds the budget',
     'C19': 'import resolution is std::filesystem + ifstream around a DFS: needs a symbolic file system and a model of filesystem::path, neither within reach of the IR->C/CBMC route',
 }
